@@ -69,7 +69,15 @@ def judge (hist : List HEv) (pending : Nat) : Option String :=
     let inStretch (k : Nat) (m : Nat) : Bool := s.stretchOf.contains (m, k)
     let bad := (List.range (s.stretch + 1)).any fun k =>
       s.entered.filter (inStretch k) ≠ (s.arrived.filter (inStretch k)).filter (s.entered.contains ·)
+    -- dispatched in arrival order, whatever the handlers do: the receive queue is first-in first-out and a message is handed to
+    -- its handler (or callback) by whoever took it from the queue.  Two loops that take at the same instant may log their
+    -- entries in either order, so a position may differ by one; a message that is overtaken by two later ones was not
+    -- dispatched in order.
+    let arrivedEntered := s.arrived.filter (s.entered.contains ·)
+    let pos (l : List Nat) (m : Nat) : Nat := (l.findIdx? (· == m)).getD 0
+    let displaced := s.entered.any fun m => pos arrivedEntered m > pos s.entered m + 1 || pos s.entered m > pos arrivedEntered m + 1
     if bad then some "out-of-order"
+    else if displaced then some "dispatch-order"
     -- never dropped while the connection is open (everything was handed over and the connection is still open)
     else if !s.closed && pending = 0 && s.arrived.any (fun m => !s.entered.contains m) then some "dropped"
     else if !s.closed && pending > 0 then some "nested-stall"
